@@ -37,6 +37,10 @@ class SubErr(Exception):
   pass
 
 
+class TaskAbort(BaseException):
+  """what a task may also die of: not an Exception (like SystemExit / KeyboardInterrupt raised inside a task)"""
+
+
 class FakeThread(object):
   def __init__(self, *a, **k):
     self.daemon = True
@@ -208,6 +212,9 @@ class Adapter(object):
     if k == "SelFD":
       to = None if op["d"] == NOTO else op["d"]
       return recoco.Select([self._sock(op["fd"])[0]], None, None, to)
+    if k == "SelW":
+      to = None if op["d"] == NOTO else op["d"]
+      return recoco.Select(None, [self._sock("a")[0]], None, to)
     if k == "Recv":
       to = None if op["d"] == NOTO else op["d"]
       return recoco.Recv(self._sock(op["fd"])[0], timeout=to)
@@ -249,6 +256,10 @@ class Adapter(object):
         for i, op in enumerate(prog):
           self.log.append([tid, i + 1, norm(got)])
           if op["op"] == "Raise":
+            # concretisation of "the task's step fails": an ordinary Exception for odd task ids, something
+            # that is not an Exception for even ones - isolation may not depend on what a task dies of
+            if tid % 2 == 0:
+              raise TaskAbort("task failure (scripted, BaseException)")
             raise RuntimeError("task failure (scripted)")
           self._cur_tid = tid
           y = recoco.Again(self._subgen(tid, op)) if op["op"] == "Call" else self._make(op)
@@ -282,6 +293,9 @@ class Adapter(object):
 
   def _fdname(self, rl, wl=None):
     if wl:
+      for f, (a, b) in self.socks.items():
+        if wl[0] is a:
+          return "w" + f
       return getattr(wl[0], "name", "w?")
     if rl:
       for f, (a, b) in self.socks.items():
